@@ -209,6 +209,11 @@ def run(chk):
     chk.require(stats[c + ':Feedback'] > 0, f'vacuous: no feedback replayed for {c}')
   for c in ('regevo', 'hill', 'hill2', 'neat', 'dd_regevo', 'dd_hill_auto') + (('nsga2',) if thorough else ()):
     chk.require(stats[c + ':evolve'] > 0, f'vacuous: no evolution step (scripted children) replayed for {c}')
+  for form in search.HISTORY_FORMS:
+    chk.require(stats['all:Crash:history=' + form] > 0, f'vacuous: recover() never received the history as a {form}')
+  for c in search.FAMILY:
+    chk.require(sum(stats[f'{c}:Crash:history={f}'] for f in ('generator', 'iterator', 'map')) > 0,
+                f'vacuous: {c} never recovered from a one-shot iterable')
   chk.require(stats['all:Crash:inflight=1'] > 0, 'vacuous: no crash with a proposal in flight')
   chk.require(stats['all:Crash:inflight=0'] > 0, 'vacuous: no crash with every reward present')
   chk.require(stats['all:Crash:after_out_of_order_feedback'] > 0, 'vacuous: no crash after out-of-order feedback')
